@@ -33,7 +33,7 @@ var HostileKinds = []string{
 }
 
 // TaggedHostileKinds reproduce recorded legacy-era findings (DESIGN.md §7).
-var TaggedHostileKinds = []string{"bank-mixed-batch-transfer", "bank-mixed-batch-conversion"}
+var TaggedHostileKinds = []string{"bank-mixed-batch-transfer", "bank-mixed-batch-conversion", "bank-mid-batch-overdraw"}
 
 func NewHostile(m *Mixed, seed int64) *Hostile {
 	return &Hostile{M: m, rng: rand.New(rand.NewSource(seed ^ 0x4057)), Kinds: HostileKinds, Tagged: map[string]bool{}}
@@ -383,6 +383,46 @@ func (x *Hostile) Apply(kind string, v *View, s *forge.BlockSpec) string {
 			other = forge.Conversion(k.FA(), t, 2, dst)
 		}
 		s.Tx = append(s.Tx, forge.SignedBatch([]forge.Tx{forge.Conversion(k.FA(), t, bal/4+1, fat2.PTickerPEG), other}, salt, k))
+	case "bank-mid-batch-overdraw":
+		// tagged: [spend 60 % of the PEG, convert something into PEG, spend another 60 % of the PEG]: the funds
+		// simulation credits the PEG request at once, the ledger defers it to the bank payout
+		if !(h+1 >= e.ConversionLimit && h+2 < e.V20) {
+			return ""
+		}
+		holders := x.M.sortedHolders(v.Balances)
+		for _, a := range holders {
+			k := x.M.byAddr[a]
+			peg := v.Balances.Get(a, fat2.PTickerPEG)
+			fct := v.Balances.Get(a, fat2.PTickerFCT)
+			usd := v.Balances.Get(a, fat2.PTickerUSD)
+			src, amt := fat2.PTickerFCT, fct
+			if usd > fct {
+				src, amt = fat2.PTickerUSD, usd
+			}
+			pr, sr := v.LastRates[fat2.PTickerPEG], v.LastRates[src]
+			isMiner := false
+			for _, mk := range x.M.W.Miners {
+				if mk.FA() == a {
+					isMiner = true // miners' PEG grows by a reward between submission and execution
+				}
+			}
+			if isMiner || k.IsEth() || peg < 1000 || amt == 0 || pr == 0 || sr == 0 {
+				continue
+			}
+			// the converted PEG must cover the gap of 20 % of the PEG balance
+			need := peg / 4
+			if amt/pr*sr < need && amt*sr/pr < need {
+				continue
+			}
+			b := peg * 6 / 10
+			s.Tx = append(s.Tx, forge.SignedBatch([]forge.Tx{
+				forge.Transfer(a, fat2.PTickerPEG, b, x.M.Actors[0].FA()),
+				forge.Conversion(a, src, amt, fat2.PTickerPEG),
+				forge.Transfer(a, fat2.PTickerPEG, b, x.M.Actors[1].FA()),
+			}, salt, k))
+			return desc
+		}
+		return ""
 	default:
 		return ""
 	}
